@@ -20,6 +20,7 @@ import (
 	"math/big"
 	"os"
 	"reflect"
+	"strconv"
 	"strings"
 	"time"
 	"unsafe"
@@ -34,6 +35,11 @@ import (
 )
 
 func main() {
+	if from := os.Getenv("C04_FATAL_CHILD"); from != "" {
+		n, _ := strconv.Atoi(from)
+		fatalChild(n)
+		return
+	}
 	c := hx.ParseFlags()
 	if err := run(c); err != nil {
 		fmt.Fprintln(os.Stderr, "harness error:", err)
@@ -189,6 +195,9 @@ type val struct {
 	v    any
 }
 
+// rawVals: names of values that are never deep-copied before the call (identity matters, or the value cannot be copied)
+var rawVals = map[string]bool{}
+
 func values() []val {
 	i, s, f := 7, "str", 1.5
 	pi := &i
@@ -282,10 +291,17 @@ func run(c hx.Config) error {
 
 	// ---- x: cross product ----
 	vals := values()
-	for _, s := range schemas() {
+	for _, v := range extraVals() {
+		rawVals[v.name] = true
+		vals = append(vals, v)
+	}
+	for _, s := range allSchemas() {
 		for _, method := range []string{"Parse", "ParseAny", "StrictParse"} {
-			for _, v := range vals {
-				in := cx.Clone(v.v)
+			for _, v := range append(append([]val(nil), vals...), typedVals(s.z)...) {
+				in := v.v
+				if !rawVals[v.name] {
+					in = cx.Clone(v.v)
+				}
 				if v.name == "reflect.Type" || v.name == "big.Int" || v.name == "*time" || v.name == "error" || v.name == "reflect.Value" || v.name == "chan" || v.name == "func" || v.name == "unsafe.Pointer" || v.name == "schema-as-value" {
 					in = v.v
 				}
@@ -375,51 +391,126 @@ func run(c hx.Config) error {
 		}
 		return true
 	}
-	probeDerived := func(label string, z any) {
-		for _, v := range vals {
-			in := v.v
-			var obs string
-			p := hx.Safely(func() {
-				_, err, pn := storex.ParseAny(z, in)
-				if pn != "" {
-					panic(pn)
-				}
-				obs = shape(err)
-			})
-			switch {
-			case p != "":
-				obs = "panic:" + classify(p)
-			case strings.HasPrefix(obs, "err(malformed:"):
-				obs = "malformed:" + strings.TrimSuffix(strings.TrimPrefix(obs, "err(malformed:"), ")")
-			default:
-				obs = "total"
+	observe := func(z any, in any) string {
+		var obs string
+		p := hx.Safely(func() {
+			_, err, pn := storex.ParseAny(z, in)
+			if pn != "" {
+				panic(pn)
 			}
-			o.Emit(fmt.Sprintf("c04 x derived ParseAny %s # derived %s.ParseAny(%s)", strings.ReplaceAll(v.name, " ", "_"), label, v.name), obs)
-			o.Count("xderived:" + strings.SplitN(obs, ":", 2)[0])
+			obs = shape(err)
+		})
+		switch {
+		case p != "":
+			return "panic:" + classify(p)
+		case strings.HasPrefix(obs, "err(malformed:"):
+			return "malformed:" + strings.TrimSuffix(strings.TrimPrefix(obs, "err(malformed:"), ")")
+		}
+		return "total"
+	}
+	probeWith := func(stream, label string, z any, vs []val) {
+		for _, v := range vs {
+			obs := observe(z, v.v)
+			o.Emit(fmt.Sprintf("c04 x %s ParseAny %s # %s %s.ParseAny(%s)", stream, strings.ReplaceAll(v.name, " ", "_"), stream, label, v.name), obs)
+			o.Count("x" + stream + ":" + strings.SplitN(obs, ":", 2)[0])
 		}
 	}
-	for _, b := range storex.Bases() {
+	probeDerived := func(label string, z any) {
+		probeWith("derived", label, z, vals)
+		probeWith("typed", label, z, typedVals(z))
+	}
+	// the values a second-level schema is asked about: nil in its guises + what its payload type directs
+	var nilish []val
+	for _, v := range vals {
+		switch v.name {
+		case "nil", "string-a", "int", "float64", "NaN", "(*int)(nil)", "(*string)(nil)", "[]any(nil)", "map[string]any(nil)", "(*big.Int)(nil)", "*any-nil",
+			"**big.Int->nil@1", "**time.Time->nil@1", "*any{(*int)(nil)}", "big.Int", "time", "map[string]any", "[]any", "func(nil)", "mixed{nils}":
+			nilish = append(nilish, v)
+		}
+	}
+	// bases: the hand list (full derived stream, as before) + every enumerated constructor and option-rich schema; the
+	// method-level streams run once per schema GO TYPE (methods belong to the type), the base-level stream for every base
+	oldBases := storex.Bases()
+	bases := append(append([]storex.Base(nil), oldBases...), extraBases()...)
+	seenType := map[reflect.Type]bool{}
+	hasFixedParam := func(recv any, name string) bool {
+		m := reflect.ValueOf(recv).MethodByName(name)
+		if !m.IsValid() {
+			return false
+		}
+		n := m.Type().NumIn()
+		if m.Type().IsVariadic() {
+			n--
+		}
+		return n > 0
+	}
+	nilChains := func(z any) []val {
+		out := []val{{"nil", nil}}
+		for _, v := range typedVals(z) {
+			if strings.Contains(v.name, "nil@") || strings.Contains(v.name, "zero") {
+				out = append(out, v)
+			}
+		}
+		return out
+	}
+	for bi, b := range bases {
 		base := b.Mk()
+		if base == nil {
+			continue
+		}
+		full := bi < len(oldBases)
+		probeDerived(b.Name, base)
+		if seenType[reflect.TypeOf(base)] && !full {
+			o.Count("bases:same-type-as-an-earlier-base")
+			continue
+		}
+		seenType[reflect.TypeOf(base)] = true
 		for _, m1 := range storex.Methods(base) {
 			if !callbackFree(base, m1) {
 				continue
 			}
+			var firsts []named2
 			for v1 := 0; v1 < 2; v1++ {
 				d1, ok, _ := storex.Call(b.Mk(), m1, v1)
 				if !ok {
 					continue
 				}
-				probeDerived(fmt.Sprintf("%s.%s/%d", b.Name, m1, v1), d1)
+				label := fmt.Sprintf("%s.%s/%d", b.Name, m1, v1)
+				if full {
+					probeDerived(label, d1)
+				} else {
+					probeWith("derived", label, d1, nilish)
+					probeWith("typed", label, d1, typedVals(d1))
+				}
 				if v1 == 1 {
 					continue
 				}
+				if hasFixedParam(base, m1) {
+					firsts = append(firsts, named2{label, d1})
+				}
 				for _, m2 := range storex.Methods(d1) {
-					if !callbackFree(d1, m2) || !(c.Thorough() || r.Intn(12) == 0) {
+					if !full || !callbackFree(d1, m2) || !(c.Thorough() || r.Intn(12) == 0) {
 						continue
 					}
 					if d2, ok2, _ := storex.Call(d1, m2, r.Intn(2)); ok2 {
 						probeDerived(fmt.Sprintf("%s.%s/0.%s", b.Name, m1, m2), d2)
 					}
+				}
+			}
+			// the same method with the zero value / negative / extreme value of every parameter
+			for _, mode := range []string{"zero", "neg", "big"} {
+				if d1, ok := callMode(b.Mk(), m1, mode); ok {
+					label := fmt.Sprintf("%s.%s/%s", b.Name, m1, mode)
+					probeWith("argmode", label, d1, nilish)
+					probeWith("argmode", label, d1, typedVals(d1))
+					o.Count("argmode:" + mode)
+					firsts = append(firsts, named2{label, d1})
+				}
+			}
+			// second level: nil-admitting modifiers and zero defaults/prefaults over the schemas that carry a parameterised check
+			for _, f := range firsts {
+				for _, d2 := range secondLevel(f.z) {
+					probeWith("level2", f.name+"."+d2.name, d2.z, nilChains(d2.z))
 				}
 			}
 		}
@@ -496,5 +587,10 @@ func run(c hx.Config) error {
 			}
 		}
 	}
-	return o.Close(map[string]any{"cfg": cfg.Tok()})
+	// ---- fatal failure modes (stack overflow, non-termination): child processes ----
+	if err := runFatal(o); err != nil {
+		return err
+	}
+	return o.Close(map[string]any{"cfg": cfg.Tok(), "ctor_built": ctorRep.built, "ctor_uncallable": ctorRep.uncallable,
+		"ctor_non_schema": ctorRep.nonSchema, "generic_uncovered": ctorRep.generic, "generic_listed": genericCtors, "ctor_listed": len(genCtors)})
 }
